@@ -382,13 +382,35 @@ def chunks(it, n):
     if buf:
         yield buf
 
+def spread(fn, lines, k=engine.NCPU):
+    """run fn over the lines in an interleaved order (line i goes to shard i mod k) so that clusters of long cases are spread over all shards"""
+    n = len(lines)
+    if n < 4 * k:
+        return fn(lines)
+    order = [i for j in range(k) for i in range(j, n, k)]
+    res = fn([lines[i] for i in order])
+    out = [None] * n
+    for pos, i in enumerate(order):
+        out[i] = res[pos]
+    return out
+
+def impl_s(ctx, cfg, lines, name='sjh'):
+    return spread(lambda ls: ctx.impl(cfg, ls, name), lines)
+
+def both_s(ctx, cfg, lines):
+    order_res = spread(lambda ls: list(zip(*ctx.both(cfg, ls))), lines)
+    return [a for a, _ in order_res], [b for _, b in order_res]
+
+def run_lines_s(binary, lines, tag):
+    return spread(lambda ls: engine.run_lines(binary, ls, tag), lines)
+
 def have_model(name):
     return os.path.exists(os.path.join(engine.VERIF, 'ocaml', name))
 
 def model_lines(ctx, lines, name):
     if not ctx.model_ok or not have_model(name):
         return None
-    return ctx.model(lines, name)
+    return spread(lambda ls: ctx.model(ls, name), lines)
 
 def judge_lits(ctx, cfg, inputs, aux=None):
     """implementation vs exact oracle (and vs the Coq side) on a list of literals; aux: {'target': 'f64'|'f32'}"""
@@ -399,7 +421,7 @@ def judge_lits(ctx, cfg, inputs, aux=None):
         return []
     v = []
     exp = [expect_typed(d, fmt) for d in inputs]
-    outs = ctx.impl(cfg, ['%s %s' % (target, hx(d)) for d in inputs], 'sjh_lex')
+    outs = impl_s(ctx, cfg, ['%s %s' % (target, hx(d)) for d in inputs], 'sjh_lex')
     if not ctx.quiet:
         ctx.distinct_nontrivial += sum(1 for e, ix in exp if ix)
     for d, (e, _), a in zip(inputs, exp, outs):
@@ -426,7 +448,7 @@ def judge_lits(ctx, cfg, inputs, aux=None):
     if target == 'f64' and 'arbitrary_precision' not in feats:
         L = ctx.letters(cfg)
         lines = ['pv %s b %s' % (L, hx(d)) for d in inputs]
-        io, mo = ctx.both(cfg, lines)
+        io, mo = both_s(ctx, cfg, lines)
         for d, a, m in zip(inputs, io, mo):
             e = expect_value(d)
             def agrees(x):
@@ -631,7 +653,7 @@ def check_algorithm(ctx, cfg, lits64, lits32, binary):
         e = rng.choice([rng.randrange(-400, 400), rng.randrange(-30, 40), rng.randrange(-30, 40), rng.choice([-2 ** 31, 2 ** 31 - 1, -351, -350, 310, 309, 300, -2 ** 31 + 300])])
         add(('c', m, e), fmt)
     lines = [c[0] for c in cases]
-    io = engine.run_lines(binary, lines, 'C07-lx')
+    io = run_lines_s(binary, lines, 'C07-lx')
     ctx.evaluations += len(lines)
     mo = model_lines(ctx, lines, 'sjdriver_lex')
     paths = {}
@@ -673,7 +695,7 @@ def check_algorithm(ctx, cfg, lits64, lits32, binary):
             sh = 11 if k == 'd' else 40
             mm = (mm >> sh << sh) | rng.choice([1 << (sh - 1), (1 << sh) - 1, (1 << (sh - 1)) + 1, (1 << (sh - 1)) - 1, 0])
         ef.append('ef round %s %d %d' % (k, mm if rng.random() < 0.9 else rng.randrange(0, 1 << 63), rng.randrange(lo_e, hi_e)))
-    io = engine.run_lines(binary, ef, 'C07-ef')
+    io = run_lines_s(binary, ef, 'C07-ef')
     ctx.evaluations += len(ef)
     mo = model_lines(ctx, ef, 'sjdriver_lex')
     if mo is not None:
@@ -737,7 +759,7 @@ def check_bigint(ctx, cfg, binary):
         cases.append(('bi compare %s %s' % (limbs_text(to_limbs(x)), limbs_text(to_limbs(z))), 'lt' if x < z else 'gt' if x > z else 'eq', reach))
         u = rng.choice([0, 1, 2 ** 64 - 1, rng.getrandbits(64)])
         cases.append(('bi from_u64 %d' % u, u, reach))
-    outs = engine.run_lines(binary, [c[0] for c in cases], 'C07-bi')
+    outs = run_lines_s(binary, [c[0] for c in cases], 'C07-bi')
     ctx.evaluations += len(cases)
     for (line, want, reach), a in zip(cases, outs):
         if isinstance(want, int):
